@@ -29,6 +29,7 @@ ASSUMPTIONS.update({
     "vs_string_from_lit": "std to_owned",
     "bool": "Value::bool(b) returns the Garden Bool value for b (built from a thread_local; ghost `bool_value(b)`)",
     "checked_pow": "i64::checked_pow(a, n) is Some(a^n) iff a^n fits in i64 (std documentation); its loop is not verified",
+    "wrapping_rem_euclid": "i64::wrapping_rem_euclid(a, b) panics iff b == 0 and otherwise returns the Euclidean remainder (std documentation; MIN % -1 is 0)",
     "Type": "opaque stand-in for garden_type::Type (not inspected here)",
     "TypeName": "opaque stand-in for parser::ast::TypeName (not inspected here)",
     "Env": "opaque stand-in for env::Env (only passed to message formatting, which R9 removes)",
@@ -93,6 +94,9 @@ impl Value {
 }
 pub assume_specification [i64::checked_pow] (a: i64, n: u32) -> (r: std::option::Option<i64>)
     ensures r == (if in64(pow_int(a as int, n as nat)) { Some(pow_int(a as int, n as nat) as i64) } else { None::<i64> });
+pub assume_specification [i64::wrapping_rem_euclid] (a: i64, b: i64) -> (r: i64)
+    requires b != 0,
+    ensures r == (a as int) % (b as int);
 """
 
 UNREACH = rw.simple("R12", r"\bunreachable!\(\)", "vstd::pervasive::unreached()")
